@@ -27,7 +27,9 @@ FIELD_WORDS = ["alpha", "bravo", "count", "delta", "echo", "flag", "gold", "hp",
                "x", "y", "zone", "amount", "body", "code", "dir", "extra", "first", "guild_tag", "hair_style",
                # legal names that a generated class might one day want for something of its own
                "hash", "repr", "cache", "size", "fields", "value", "values", "key", "id", "type", "wire",
-               "length", "reader_position", "self_", "cls_", "old_mode"]
+               "length", "reader_position", "self_", "cls_", "old_mode",
+               # members of generated PACKET classes: legal field names in structures and case data (kept out of packets below)
+               "family", "action", "write"]
 # NOT generated: field names equal to a builtin that the generated methods call (len, range, int, bytes, tuple, str):
 # they become parameters / locals that shadow it (observed: a field named `len` makes deserialize raise TypeError) -
 # identifiers colliding with generated code, degenerate like the locals `reader`, `writer`, `data`, `result`, `i`
@@ -665,7 +667,7 @@ class SpecGen:
         return out
 
     def gen_packet(self, path, family, action):
-        body, info = self.gen_body(path, 0, False, False, set(), 8, 2, [WEIGHT_LIMIT])
+        body, info = self.gen_body(path, 0, False, False, {"family", "action", "write"}, 8, 2, [WEIGHT_LIMIT])
         lines = [f'    <packet family="{family}" action="{action}">']
         if self.rng.random() < self.k.p_comment:
             lines.append(f"        <comment>{escape(self.comment())}</comment>")
